@@ -291,6 +291,20 @@ def auto_discharge(prog, cg, site):
                     return "D2: dominated by %s %s %s" % (T.show(lhs)[:40], "<=" if rel == "le" else "<", T.show(rhs)[:40])
         return None
     if k in ("div_zero", "rem_zero"):
+        # the divisor is the upper bound of an enclosing `for _ in lo..divisor` loop: the body runs only if divisor > lo >= 0
+        if site.a is not None:
+            import cfg as _cfg
+            dv = T.canon(T.strip_casts(site.a))
+            for h, blocks in _cfg.natural_loops(b):
+                if site.block not in blocks:
+                    continue
+                ht = b.term(h)
+                if ht["k"] == "call" and (callee_name(ht["callee"]) or "").endswith("::next"):
+                    src = tm.call_term(h)[2][0]
+                    for z in T.walk(src):
+                        if z[0] == "agg" and z[1].startswith("adt:core::ops::range::Range::Range") and len(z[2]) == 2 and \
+                                T.canon(T.strip_casts(z[2][1])) == dv:
+                            return "D3: divisor is the upper bound of the enclosing range loop (non-zero inside the body)"
         v = T.const_val(T.strip_casts(site.a)) if site.a else None
         if v is not None and v != 0:
             return "D1: constant divisor %d" % v
